@@ -13,6 +13,10 @@ import (
 const prop = "c15"
 
 func main() {
+	if os.Getenv("VERIF_C15_CONC") != "" {
+		concWorkload()
+		return
+	}
 	if os.Getenv("VERIF_C15_RACE") != "" {
 		raceWorkload()
 		return
